@@ -4,6 +4,8 @@ import (
 	"net/url"
 	"strconv"
 
+	"github.com/pion/sdp/v3"
+
 	"github.com/bluenviron/gortsplib/v5/pkg/base"
 	"github.com/bluenviron/gortsplib/v5/pkg/description"
 )
@@ -110,3 +112,53 @@ func ZzC20NoCredentials() {
 }
 
 var zzAllMethods = []base.Method{base.Announce, base.Describe, base.GetParameter, base.Options, base.Pause, base.Play, base.Record, base.Setup, base.SetParameter, base.Teardown}
+
+// C20 (base URL choice on the client): the same pair property with the base
+// URL chosen by the real findBaseURL from the DESCRIBE response: absolute
+// Content-Base (what the library server sends), relative Content-Base (path
+// and query only, some cameras), or no Content-Base at all.
+func ZzC20FindBaseURL() {
+	path := "/" + zzURLText("seg", 1, zzParam("PL", 2))
+	query := ""
+	if zzBool("withQuery") {
+		query = zzURLText("query", 1, zzParam("QL", 2))
+	}
+	raw := "rtsp://host:8554" + path
+	rel := path
+	if query != "" {
+		raw += "?" + query
+		rel += "?" + query
+	}
+	u, err := base.ParseURL(raw)
+	zzAssert(err == nil, "stream URL parses")
+	if err != nil {
+		return
+	}
+	res := &base.Response{StatusCode: base.StatusOK, Header: base.Header{}}
+	kind := zzConcretize(zzIntIn("contentBase", 0, 2))
+	switch kind {
+	case 0:
+		res.Header["Content-Base"] = base.HeaderValue{u.String() + "/"}
+	case 1:
+		res.Header["Content-Base"] = base.HeaderValue{rel + "/"}
+	}
+	bu, err := findBaseURL(&sdp.SessionDescription{}, res, u)
+	zzAssert(err == nil && bu != nil, "client finds a base URL")
+	if err != nil || bu == nil {
+		return
+	}
+	n := zzConcretize(zzIntIn("track", 0, 2))
+	m := description.Media{Control: "trackID=" + strconv.Itoa(n)}
+	mu, err := m.URL(bu)
+	zzAssert(err == nil && mu != nil, "client resolves the media URL")
+	if err != nil || mu == nil {
+		return
+	}
+	p, q, tid, err := getPathAndQueryAndTrackID(mu)
+	zzAssert(err == nil, "server analyses the SETUP URL")
+	zzAssert(p == path, "SETUP: handler sees the path of the stream URL")
+	zzAssert(q == query, "SETUP: handler sees the query of the stream URL")
+	zzAssert(tid == strconv.Itoa(n), "SETUP reaches the track it was issued for")
+	zzCover("relative content base", kind == 1)
+	zzCover("no content base", kind == 2)
+}
